@@ -303,6 +303,38 @@ fn e3_values(res: &mut PartResult) {
         let got = l.0.lock().unwrap().clone();
         check("f32::NaN".into(), got, vec![format!("gset({:x})", fbits(f64::NAN))], res);
     }
+    // GaugeValue::update_value (what recorders use to apply a gauge operation to the value current at that instant)
+    for input in f64s {
+        for v in f64s {
+            for (gv, want, name) in [(metrics::GaugeValue::Absolute(v), v, "Absolute"), (metrics::GaugeValue::Increment(v), input + v, "Increment"), (metrics::GaugeValue::Decrement(v), input - v, "Decrement")] {
+                let got = gv.update_value(input);
+                check(format!("GaugeValue::{}({:?}).update_value({:?})", name, v, input), vec![format!("{:x}", fbits(got))], vec![format!("{:x}", fbits(want))], res);
+            }
+        }
+    }
+    // handles built through From<Arc<T>>, and the Arc<T> forwarding impls of the *Fn traits
+    {
+        let l = Arc::new(LogFn::default());
+        let c: Counter = l.clone().into();
+        let g: Gauge = l.clone().into();
+        let h: Histogram = l.clone().into();
+        c.increment(2);
+        c.absolute(9);
+        g.increment(1.5);
+        g.decrement(0.5);
+        g.set(-3.0);
+        h.record(4.0);
+        CounterFn::increment(&l, 7);
+        CounterFn::absolute(&l, 8);
+        GaugeFn::increment(&l, 2.5);
+        GaugeFn::decrement(&l, 3.5);
+        GaugeFn::set(&l, 4.5);
+        HistogramFn::record(&l, 5.5);
+        HistogramFn::record_many(&l, 6.5, 2);
+        let got = l.0.lock().unwrap().clone();
+        let f = |n: &str, v: f64| format!("{}({:x})", n, fbits(v));
+        check("From<Arc<T>> handles + Arc<T> forwarding".into(), got, vec!["inc(2)".into(), "abs(9)".into(), f("ginc", 1.5), f("gdec", 0.5), f("gset", -3.0), f("rec", 4.0), "inc(7)".into(), "abs(8)".into(), f("ginc", 2.5), f("gdec", 3.5), f("gset", 4.5), f("rec", 5.5), f("rec", 6.5), f("rec", 6.5)], res);
+    }
     res.states = states.len();
     res.distinct_outcomes = states.len();
     res.sample(json!({"case": "gauge.set(i32::MIN) -> gset(bits of -2147483648.0)"}));
